@@ -42,6 +42,7 @@ type HarnessCfg struct {
 	AssertMs    int               `json:"assert_ms"`
 	Guarded     []string          `json:"guarded"`
 	UnwindCut   map[string]int    `json:"unwind_cut"` // loops in these functions are cut after K symbolic iterations (the rest is outside the claim)
+	ExactCap    bool              `json:"exact_cap"` // bytes.Buffer.Bytes() views get cap == len (no symbolic capacity)
 	NoEnd       bool              `json:"no_end"` // the harness ends blocked by design; "end" is not required
 	Real        []string          `json:"real"` // models disabled for this harness (the real SSA body is executed)
 }
@@ -54,6 +55,7 @@ type PropCfg struct {
 	Bounds      map[string]string `json:"bounds"`
 	Outside     []string          `json:"outside"`
 	Transforms  []TransformCfg    `json:"transforms"`
+	Also        []string          `json:"also"` // further config files of the same property (own overlay/transforms), run after this one
 }
 
 // TransformCfg: an overlay copy of a current repo file with exactly one textual replacement.
